@@ -107,7 +107,18 @@ fn process_request_obj(request: &Request, dbs: &Arc<Databases>, client: &mut Cli
             &dbs,
             &client,
             &key,
-            &|_db| remove_key(&key, _db),
+            &|_db| {
+                if dbs.is_primary() {
+                    return remove_key(&key, _db);
+                } else {
+                    // Like increment: the primary applies the remove and replicates it back
+                    send_message_to_primary(
+                        get_replicate_remove_message(_db.name.clone(), key.clone()),
+                        dbs,
+                    );
+                }
+                Response::Ok {}
+            },
             PermissionKind::Remove,
         ),
 
